@@ -567,6 +567,26 @@ func c19Real(c *core.Case, o *core.Outcome) {
 		if !c19F1Handlers(o, sum.Log, s, f, d, desc) {
 			return
 		}
+		if wantFailed {
+			// a failed run's summary is an error record: loggers that only keep warnings or errors still state it
+			for _, lvl := range []slog.Level{slog.LevelWarn, slog.LevelError} {
+				var jb bytes.Buffer
+				sum.Log(f1log.NewLogger(&jb, f1log.NewConfig().WithLevel(lvl).WithJSONFormat(true)))
+				dec := json.NewDecoder(bytes.NewReader(jb.Bytes()))
+				dec.UseNumber()
+				var rec map[string]any
+				if err := dec.Decode(&rec); err != nil {
+					o.Violate("log-level:"+desc, "with f1's logger at level %v the summary of a failed run is not logged (output %q): the verdict and the counts are missing from the log", lvl, firstN(jb.String(), 200))
+					return
+				}
+				stats, _ := rec["iteration_stats"].(map[string]any)
+				if fmt.Sprint(stats["failed"]) != strconv.FormatUint(f, 10) || fmt.Sprint(stats["successful"]) != strconv.FormatUint(s, 10) {
+					o.Violate("log-level-count:"+desc, "with f1's logger at level %v the failed summary states %v, the data has %d successful / %d failed", lvl, stats, s, f)
+					return
+				}
+				o.AddObs("f1_handler_lines", 1)
+			}
+		}
 		// the percentages must add up to ~100 when every kind is shown
 		if total > 0 {
 			var acc float64
